@@ -62,13 +62,18 @@ def event_items(draw, nodes, max_items=3, max_subs=2, plus=True, reflexive=True,
         if max_items >= 3 and draw(st.booleans()):
             v3 = draw(st.sampled_from(nodes))
             do3 = [] if draw(st.booleans()) else [x for x in tw[0]["do"] if reflexive or x[0] != v3]
+            if rest and draw(st.integers(0, 2)) == 0:
+                # a third world: the same variable once more, under another variable's intervention (or both)
+                v3 = c
+                q = draw(st.sampled_from(rest))
+                do3 = sorted([[q, pflag()]] + ([[p, first]] if draw(st.booleans()) else []))
             if (v3, tuple(map(tuple, do3))) not in {(t["v"], tuple(map(tuple, t["do"]))) for t in tw}:
                 tw.append({"v": v3, "do": do3, "val": pflag()})
         return tw
     world_mode = draw(st.booleans())
     worlds = [[]]
     if world_mode:
-        for _ in range(draw(st.integers(1, 2))):
+        for _ in range(draw(st.sampled_from([1, 2, 2, 3]))):
             k = draw(st.integers(1, max(1, min(max_subs, len(nodes)))))
             subs = sorted(draw(st.lists(st.sampled_from(nodes), min_size=k, max_size=k, unique=True)))
             worlds.append([[s, pflag()] for s in subs])
@@ -184,6 +189,8 @@ def features(g, items):
         f.add("reflexive-subscript")
     worlds = {tuple(sorted(map(tuple, it["do"]))) for it in items}
     f.add(f"worlds={len(worlds)}")
+    if len([w for w in worlds if w]) >= 3:
+        f.add("three-nonfactual-worlds")
     if g["bi"]:
         f.add("bidirected")
     return f
